@@ -15,14 +15,14 @@ UNITS = [
 ]
 # byteswap: every type code the validator accepts, arrays of every alignment, nesting
 SWAP_CATALOGUE = ['y', 'b', 'n', 'q', 'i', 'u', 'x', 't', 'd', 'h', 's', 'g', 'ay', 'an', 'au', 'ax', 'ah', 'ab', 'yu', 'yx',
-                  '(yu)', '(yx)', 'a(yu)', 'aau', 'a{yu}', '(y(yu))', 'yh']
+                  '(yu)', '(yx)', 'a(yu)', 'aau', 'a{yu}', '(y(yu))', 'yh', 'a(yy)u', 'a(yy)y', 'a{yy}u']   # the last three: a container array followed by another value
 BODYTUS = [dict(file=f) for f in (VAL, STR, REC, BASIC, SWAP, 'dbus/dbus-signature.c')]
 for _i, _sig in enumerate(SWAP_CATALOGUE):
-    _n = 6 if 'g' in _sig else (12 if (any(c in _sig for c in 'so') or _sig in ('a(yu)', 'a{yu}', 'aau')) else 16)   # signature-typed content is validated by the (costly) signature validator
-    for _le, _tier in ((_i % 2, 'quick'), (1 - _i % 2, 'thorough')):
+    _n = 6 if 'g' in _sig else (12 if (any(c in _sig for c in 'so') or _sig in ('a(yu)', 'a{yu}')) else 16)   # signature-typed content is validated by the (costly) signature validator
+    for _le, _tier in (((_i % 2, 'quick'), (1 - _i % 2, 'thorough')) if _sig != 'aau' else ((0, 'thorough'), (1, 'thorough'))):   # aau: > 16 GB at any useful bound, thorough tier only
         UNITS.append(dict(name='C02.swap.%s.%s%d' % (_sig, 'le' if _le else 'be', _n), props=['C02', 'C10'], kind='B', route='plain',
                           tus=BODYTUS, harness='harness/c02_byteswap.c', extra_sources=[ASSERT, 'stubs/list_as_stack.c'],
-                          defines=['VERIF_N=%d' % _n, 'VERIF_LE=%d' % _le, 'VERIF_SIG="%s"' % _sig], unwind=_n + 3, timeout=1800, tier=_tier,
+                          defines=['VERIF_N=%d' % _n, 'VERIF_LE=%d' % _le, 'VERIF_SIG="%s"' % _sig], unwind=_n + 3, timeout=1800, tier=_tier, cbmc_flags=['--object-bits', '10'],
                           expect_s=30, trace_is_execution=True, replay_family='swap', replay_fn='%s:%d' % (_sig, _le),
                           bounds={'signature': _sig, 'body_bytes': _n, 'from_byte_order': 'little' if _le else 'big'},
                           functions=[dict(name='_dbus_marshal_byteswap / byteswap_body_helper', file=SWAP, status='bounded'),
